@@ -88,6 +88,10 @@ def handle (line : String) : String :=
     match parseMod md, parseMap mp with
     | some m, some bm => (if mslMissing m bm then "MISSING " else "") ++ mslExpected m bm
     | _, _ => "bad-case"
+  | some [.list [.atom "c17mslauto", md]] =>
+    match parseMod md with
+    | some m => mslAutoExpected m
+    | none => "bad-case"
   | some [.list [.atom "c17glsl", md, mp, .atom ep]] =>
     match parseMod md, parseMap mp with
     | some m, some bm =>
